@@ -22,9 +22,10 @@ package linktracker
 //@    && (forall r graphsync.RequestID :: r in lt.missingBlocks ==> lt.missingBlocks[r] != nil)
 
 //@ func New
-//@   modifies alloc, ltMissed, LinkTracker.missingBlocks, LinkTracker.linksWithBlocksTraversedByRequest, LinkTracker.traversalsWithBlocksInProgress
+//@   modifies alloc, ltMissed
 //@   ghost ltMissed := upd(old(ltMissed), result, emptyset(ref))
-//@   ensures result != nil && !old(isalloc(result)) && invLT(result)
+//@   ensures result != nil && fresh(result) && invLT(result)
+//@   ensures fresh(result.missingBlocks) && fresh(result.linksWithBlocksTraversedByRequest) && fresh(result.traversalsWithBlocksInProgress)
 //@   ensures (forall r graphsync.RequestID :: !(r in result.linksWithBlocksTraversedByRequest) && !(r in result.missingBlocks))
 //@   ensures (forall l ipld.Link :: rc(result, l) == 0)
 
@@ -42,9 +43,8 @@ package linktracker
 //@   ensures result ==> ltMissed[lt][requestID]
 
 //@ func LinkTracker.RecordLinkTraversal
-//@   overflow checked
-//@   requires invLT(lt) && rc(lt, link) < 9223372036854775807
-//@   modifies alloc, lt.missingBlocks[*], lt.linksWithBlocksTraversedByRequest[*], lt.traversalsWithBlocksInProgress[*], lt.missingBlocks[requestID][*]
+//@   requires invLT(lt)
+//@   modifies alloc, lt.missingBlocks[*], lt.linksWithBlocksTraversedByRequest[*], lt.traversalsWithBlocksInProgress[*], allmaps(lt.missingBlocks[requestID])
 //@   ghost ltMissed := ite(hasBlock, old(ltMissed), upd(old(ltMissed), lt, add(old(ltMissed)[lt], requestID)))
 //@   ensures invLT(lt)
 //@   ensures hasBlock ==> rc(lt, link) == old(rc(lt, link)) + 1 && occ(lt, requestID, link) == old(occ(lt, requestID, link)) + 1
